@@ -98,7 +98,12 @@ Definition retr (k : N) (f : transport -> transport) (l : list rpeer) : list rpe
 Definition rstep (st : rstate) (o : rop) : option rr_res * rstate :=
   match o with
   | RAttach k =>
-    (None, {| r_peers := r_peers st ++ [{| p_id := k; p_sink := sink0 accepting_tr |}]; r_rr := r_rr st ++ [k]; r_gone := r_gone st |})
+    (* peers.upsert: a connection already registered under this identity is replaced (and let go of);
+       RoundRobin::push: the identity is queued only if it is not queued already - an entry left behind by an earlier
+       connection under this identity is taken over *)
+    (None, {| r_peers := pdel k (r_peers st) ++ [{| p_id := k; p_sink := sink0 accepting_tr |}];
+              r_rr := if existsb (N.eqb k) (r_rr st) then r_rr st else r_rr st ++ [k];
+              r_gone := match pget k (r_peers st) with Some p => p :: r_gone st | None => r_gone st end |})
   | RLost k =>
     (None, match pget k (r_peers st) with
            | Some p => {| r_peers := pdel k (r_peers st); r_rr := r_rr st; r_gone := p :: r_gone st |}
